@@ -115,27 +115,40 @@ def main():
     shutil.rmtree("/var/tmp/seed-demo-mut", ignore_errors=True)
     valid = bool(report["existing_tests_pass"] and report["demo_fails_with_patch"] and report["demo_passes_without_patch"])
     report["valid_seed"] = valid
-    # --- does the check catch it?
+    # --- does the check catch it?  (patch applied to the scratch worktree, check run from a scratch worktree of /verif
+    #     with VERIF_REPO pointing there: same as applying to /repo, but /repo and /verif/evidence stay untouched)
     if valid and "--no-check" not in sys.argv:
-        rc, out = sh("git apply %s" % patch, cwd="/repo")
+        SV = "/var/tmp/seedverif"
+        sh("git checkout -q --detach %s" % sh("git rev-parse main", cwd=ROOT)[1].strip(), cwd=SV)
+        report["verif_commit"] = sh("git rev-parse --short HEAD", cwd=SV)[1].strip()
+        rc, out = sh("git apply %s" % patch, cwd=WT)
         if rc == 0:
             try:
                 t = time.time()
-                rc, out = sh("./check %s --tier quick" % pid, cwd=ROOT, timeout=7200)
+                rc, out = sh("VERIF_REPO=%s ./check %s --tier quick" % (WT, pid), cwd=SV, timeout=7200)
                 report["check_rc"] = rc
                 report["check_s"] = round(time.time() - t)
                 report["check_lines"] = [l[:400] for l in out.splitlines() if l.startswith(("VIOLATION", "KNOWN-FINDING", "  ->"))][:12]
                 report["caught"] = rc == 1 and any(l.startswith("VIOLATION property=%s" % pid) for l in out.splitlines())
+                if not report["caught"]:
+                    report["check_tail"] = out[-1500:]
             finally:
-                sh("git apply -R %s" % patch, cwd="/repo")
+                sh("git apply -R %s" % patch, cwd=WT)
         else:
-            report["error"] = "patch does not apply to /repo: " + out[-300:]
+            report["error"] = "patch does not apply: " + out[-300:]
     if valid:
         dst = os.path.join(ROOT, "seeded", "%s-%s" % (pid, name))
         os.makedirs(dst, exist_ok=True)
         for f in os.listdir(d):
-            if os.path.isfile(os.path.join(d, f)) and os.path.getsize(os.path.join(d, f)) < 200000 and not os.access(os.path.join(d, f), os.X_OK) or f.endswith(".sh"):
-                shutil.copy(os.path.join(d, f), dst)
+            q = os.path.join(d, f)
+            if not os.path.isfile(q) or os.path.getsize(q) > 200000:
+                continue
+            with open(q, "rb") as fh:
+                if fh.read(4) == b"\x7fELF":
+                    continue
+            if f.endswith((".log", ".o")):
+                continue
+            shutil.copy(q, dst)
         meta = {}
         try:
             meta = json.load(open(os.path.join(d, "meta.json")))
@@ -146,7 +159,8 @@ def main():
             "repo_head", "existing_tests_pass", "suite_summary_with_patch", "demo_passes_without_patch", "demo_fails_with_patch",
             "check_rc", "caught", "check_lines", "check_s", "when")}
         meta["what_was_run"] = ("scratch worktree /var/tmp/seedwt at /repo HEAD: git apply, ninja incremental build of every test, ctest (all 140), "
-                                "demo built and run with and without the patch; then git -C /repo apply, ./check %s --tier quick, git apply -R" % pid)
+                                "demo built and run with and without the patch; then, with the patch applied there, VERIF_REPO=/var/tmp/seedwt ./check %s --tier quick "
+                                "from a scratch worktree of /verif (equivalent to git -C /repo apply; ./check; undo), patch reverted afterwards" % pid)
         json.dump(meta, open(os.path.join(dst, "meta.json"), "w"), indent=1)
     print(json.dumps(report, indent=1))
     return 0
